@@ -233,6 +233,26 @@ def _quoted_punct_seeds():
 
 SEEDS.update(_quoted_punct_seeds())
 
+SEEDS['underscore_names'] = '''
+(set-logic QF_UFBV)
+(declare-const v (_ BitVec 8))
+(declare-fun _v ((_ BitVec 8)) (_ BitVec 8))
+(declare-const w (_ BitVec 4))
+(define-fun _w ((a (_ BitVec 4))) (_ BitVec 4) (bvnot a))
+(assert (= (_v v) (bvadd v #x01)))
+(assert (= (_w w) #x3))
+(check-sat)
+'''
+
+SEEDS['string_edge_quotes'] = '''
+(set-logic QF_S)
+(declare-const s String)
+(assert (= s """abc"))
+(assert (str.contains s "abc"""))
+(assert (distinct s """" "x""y"))
+(check-sat)
+'''
+
 SEEDS['late_set_info'] = '''
 (set-info :smt-lib-version 2.6)
 (set-logic QF_BV)
